@@ -706,19 +706,31 @@ impl IdlArcSqliteWriteTransaction<'_> {
                 e
             })?;
 
+        #[cfg(feature = "verif-hooks")]
+        crate::verif_hooks::pause("arc_commit:before_db");
         // Ensure the db commit succeeds first.
         db.commit()?;
+        #[cfg(feature = "verif-hooks")]
+        crate::verif_hooks::pause("arc_commit:after_db");
 
         // Can no longer fail from this point.
         op_ts_max.commit();
         name_cache.commit();
+        #[cfg(feature = "verif-hooks")]
+        crate::verif_hooks::pause("arc_commit:after_name_cache");
         idx_exists_cache.commit();
         idl_cache.commit();
+        #[cfg(feature = "verif-hooks")]
+        crate::verif_hooks::pause("arc_commit:after_idl_cache");
         allids.commit();
+        #[cfg(feature = "verif-hooks")]
+        crate::verif_hooks::pause("arc_commit:after_allids");
         maxid.commit();
         keyhandles.commit();
         // Unlock the entry cache last to remove contention on everything else.
         entry_cache.commit();
+        #[cfg(feature = "verif-hooks")]
+        crate::verif_hooks::pause("arc_commit:end");
 
         Ok(())
     }
@@ -1271,6 +1283,10 @@ impl IdlArcSqlite {
             );
             cache_size = DEFAULT_CACHE_TARGET; // this being above the log was an uncaught bug
         }
+        #[cfg(feature = "verif-hooks")]
+        if let Some(n) = crate::verif_hooks::arc_floor() {
+            cache_size = n;
+        }
 
         let entry_cache = ARCacheBuilder::new()
             .set_expected_workload(
@@ -1362,12 +1378,24 @@ impl IdlArcSqlite {
 
     pub fn read(&self) -> Result<IdlArcSqliteReadTransaction<'_>, OperationError> {
         // IMPORTANT! Always take entrycache FIRST
+        #[cfg(feature = "verif-hooks")]
+        crate::verif_hooks::pause("arc_read:begin");
         let entry_cache_read = self.entry_cache.read();
+        #[cfg(feature = "verif-hooks")]
+        crate::verif_hooks::pause("arc_read:after_entry_cache");
         let db_read = self.db.read()?;
+        #[cfg(feature = "verif-hooks")]
+        crate::verif_hooks::pause("arc_read:after_db");
         let idl_cache_read = self.idl_cache.read();
+        #[cfg(feature = "verif-hooks")]
+        crate::verif_hooks::pause("arc_read:after_idl_cache");
         let name_cache_read = self.name_cache.read();
+        #[cfg(feature = "verif-hooks")]
+        crate::verif_hooks::pause("arc_read:after_name_cache");
         let idx_exists_cache_read = self.idx_exists_cache.read();
         let allids_read = self.allids.read();
+        #[cfg(feature = "verif-hooks")]
+        crate::verif_hooks::pause("arc_read:end");
 
         Ok(IdlArcSqliteReadTransaction {
             db: db_read,
